@@ -201,9 +201,12 @@ Definition conv_acc (b : bank) (iv : fmview) (r : regs) (signed : bool) (zp : Z)
               (zrange idp)) (zrange kw)) (zrange kh)).
 
 (* zero points belong to 8- and 16-bit feature maps: for a 32-bit OFM the OFM_ZERO_POINT register is not applied (Vela
-   itself programs zero point 0 for every 32-bit IFM and reads such intermediates back without an offset) *)
+   itself programs zero point 0 for every 32-bit IFM and reads such intermediates back without an offset) - unless the
+   ACTIVATION register names an explicit clip range (bits 12-13), as Vela's softmax does for the subtraction whose clipped
+   result, offset by the zero point 127, indexes the exponential table *)
 Definition ofm_zp (r : regs) : Z :=
-  if prec_elem_ofm (r0 r cmd0_NPU_SET_OFM_PRECISION) =? 4 then 0 else s16 (r0 r cmd0_NPU_SET_OFM_ZERO_POINT).
+  if (prec_elem_ofm (r0 r cmd0_NPU_SET_OFM_PRECISION) =? 4) && (((r0 r cmd0_NPU_SET_ACTIVATION) / 4096) mod 4 =? 0)
+  then 0 else s16 (r0 r cmd0_NPU_SET_OFM_ZERO_POINT).
 Definition finish_raw (r : regs) (acc bias scale shift : Z) : Z :=
   apply_scale (rounding_mode r) (acc + bias) scale shift + ofm_zp r.
 Definition finish (r : regs) (acc bias scale shift : Z) : Z :=
@@ -222,10 +225,15 @@ Definition out_clamp (r : regs) (ofm_elem v : Z) : Z :=
    TANH / SIGMOID (16-bit native) and the 16-bit interpolating tables are not modelled *)
 Definition act_ok (r : regs) (ifm_elem ofm_elem : Z) : bool :=
   let a := (r0 r cmd0_NPU_SET_ACTIVATION) mod 4096 in
-  (a =? 0) || ((16 <=? a) && (a <=? 23) && (ifm_elem =? 1) && (ofm_elem =? 1)).
+  (a =? 0) || ((16 <=? a) && (a <=? 23) && (ifm_elem =? 1) && ((ofm_elem =? 1) || (ofm_elem =? 4))).
+(* a 32-bit OFM takes 256 four-byte entries (the exponential table of the 8-bit softmax), indexed like the 8-bit tables by
+   the clipped result counted from -128 *)
 Definition activate (x : xcfg) (m : mem) (r : regs) (v : Z) : Z :=
   match lut_index r with
-  | Some i => rd8 (get_bank m SHRAM) (x_lut_addr x + i * 256 + (v - (if ofm_signed r then -128 else 0)))
+  | Some i =>
+      if prec_elem_ofm (r0 r cmd0_NPU_SET_OFM_PRECISION) =? 4
+      then to_signed 32 (rd_le (get_bank m SHRAM) (x_lut_addr x + i * 256 + 4 * (v + 128)) 4)
+      else rd8 (get_bank m SHRAM) (x_lut_addr x + i * 256 + (v - (if ofm_signed r then -128 else 0)))
   | None => v
   end.
 
@@ -263,7 +271,7 @@ Definition exec_conv (x : xcfg) (m : mem) (code : Z) (r : regs) : option mem :=
              (positions ov)))
   end.
 
-(* pooling: param 0 = MAX, 1 = AVERAGE (2 = REDUCE_SUM not modelled) *)
+(* pooling: param 0 = MAX, 1 = AVERAGE, 2 = REDUCE_SUM *)
 Definition exec_pool (x : xcfg) (m : mem) (param : Z) (r : regs) : option mem :=
   let iv := ifm_view cmd0_NPU_OP_POOL r in
   let ov := ofm_view r in
@@ -297,6 +305,17 @@ Definition exec_pool (x : xcfg) (m : mem) (param : Z) (r : regs) : option mem :=
               let acc := sumz (map (fun q => rdv q c - zpi) (filter inb (window y xx))) in
               (y, xx, c, activate x m r (out_clamp r (fv_elem ov) (apply_scale (rounding_mode r) acc sc sh + zpo))))
            (positions ov)))
+  else if (param =? 2) && global_scale r then
+    (* REDUCE_SUM: the window summed over all input channels into one output channel *)
+    let zpi := s16 (r0 r cmd0_NPU_SET_IFM_ZERO_POINT) in
+    let zpo := ofm_zp r in
+    let sc := (r1 r cmd1_NPU_SET_OFM_SCALE) mod 4294967296 in
+    let sh := (r1 r cmd1_NPU_SET_OFM_SCALE) / 4294967296 in
+    Some (write_ofm m ov
+      (map (fun p => let '(y, xx, c) := p in
+              let acc := sumz (flat_map (fun ic => map (fun q => rdv q ic - zpi) (filter inb (window y xx))) (zrange (fv_d iv))) in
+              (y, xx, c, activate x m r (out_clamp r (fv_elem ov) (apply_scale (rounding_mode r) acc sc sh + zpo))))
+           (positions ov)))
   else if param =? 1 then
     (* average pool without a global scale (padding present): modelled as the mean over the valid
        (non-padding) elements of the window, rounded half up; the property allows one step here *)
@@ -311,13 +330,24 @@ Definition exec_pool (x : xcfg) (m : mem) (param : Z) (r : regs) : option mem :=
            (positions ov)))
   else None.
 
-(* elementwise: param = MUL 0, ADD 1, SUB 2, MIN 3, MAX 4 (LRELU 5, ABS 6, CLZ 7, SHR 8, SHL 9 not modelled).
+(* elementwise: param = MUL 0, ADD 1, SUB 2, MIN 3, MAX 4, ABS 6, CLZ 7, SHR 8, SHL 9 (LRELU 5 not modelled).
    Operand A is the IFM, operand B the IFM2 (or the IFM2 scalar), exchanged when bit 6 of IFM2_BROADCAST is set.
    ADD/SUB operand scaling (bits 8-9 of IFM_PRECISION): 0 = both operands multiplied by their 16-bit scales;
    1 / 2 = operand A / B is shifted left by the input shift (20 for 8-bit, 15 for 16-bit operands) and scaled by the
    32-bit OPA scale with double rounding, the other operand is shifted left by one bit less. *)
 Definition ew_input_shift (elem : Z) : Z := if elem =? 1 then 20 else 15.
 Definition scale_reg (v : Z) : Z * Z := (v mod 4294967296, v / 4294967296).
+
+(* CLZ: leading zero bits of the 32-bit two's complement operand; SHR: arithmetic shift right of operand A by operand B,
+   rounded as the rounding mode says (natural = half up, which Vela selects for the softmax's rescale; TFL = half away from
+   zero; truncate = towards minus infinity); SHL: shift left (no saturation modelled) *)
+Definition clz32 (a : Z) : Z :=
+  if a <? 0 then 0 else if a =? 0 then 32 else 32 - Z.log2 a - 1.
+Definition shr_round (rmode a b : Z) : Z :=
+  if b <=? 0 then a
+  else if rmode =? 0 then rdbpot a b
+  else if rmode =? 2 then (a + 2 ^ (b - 1)) / 2 ^ b
+  else a / 2 ^ b.
 
 (* the value of one output element before zero point and clamp; a, b are operands A, B minus their zero points *)
 Definition ew_value (elem mode smode rmode : Z) (gs : bool) (opa_s opa_sh opb_s ofm_s ofm_sh a b : Z) : Z :=
@@ -327,13 +357,27 @@ Definition ew_value (elem mode smode rmode : Z) (gs : bool) (opa_s opa_sh opb_s 
   let pre_a := if smode =? 0 then a * (opa_s mod 65536) else if smode =? 1 then wide a else narrow a in
   let pre_b := if smode =? 0 then b * opb_s else if smode =? 2 then wide b else narrow b in
   let out (v : Z) := if gs then apply_scale rmode v ofm_s ofm_sh else v in
-  if mode =? 0 then out (a * b)
+  (* a 32-bit MUL does not scale its product: only the shift of OFM_SCALE applies (reading taken from Vela's squared
+     difference and softmax rewrites: "32 bit Mul op do not scale the value ... multiplier not actually used for int32") *)
+  let shift_only (v : Z) :=
+      if negb gs then v
+      else if rmode =? 0 then rdbpot v ofm_sh
+      else if rmode =? 2 then (if ofm_sh <=? 0 then v else (v + 2 ^ (ofm_sh - 1)) / 2 ^ ofm_sh)
+      else v / 2 ^ ofm_sh in
+  if mode =? 0 then (if elem =? 4 then shift_only (a * b) else out (a * b))
   else if mode =? 1 then out (pre_a + pre_b)
   else if mode =? 2 then out (pre_a - pre_b)
   else if mode =? 3 then out (Z.min a b)
   else if mode =? 4 then out (Z.max a b)
+  else if mode =? 7 then clz32 a
+  else if mode =? 8 then shr_round rmode a b
+  else if mode =? 9 then a * 2 ^ (Z.max 0 b)
   else Z.abs a.        (* ABS (6), unary: |operand A|, no output scaling (reading: Vela programs OFM_SCALE with the bare output
                           scale for it, which cannot be a factor of the result) *)
+
+(* a 32-bit elementwise result saturates (the fixed-point recipes Vela emits rely on it: 2^30 doubled is 2^31 - 1) *)
+Definition sat32 (ofm_elem v : Z) : Z :=
+  if ofm_elem =? 4 then clampz (- 2147483648) 2147483647 v else v.
 
 Definition exec_elementwise (x : xcfg) (m : mem) (mode : Z) (r : regs) : option mem :=
   let iv := ifm_view cmd0_NPU_OP_ELEMENTWISE r in
@@ -343,7 +387,7 @@ Definition exec_elementwise (x : xcfg) (m : mem) (mode : Z) (r : regs) : option 
   let rev := (bc / 64) mod 2 =? 1 in
   let scalar := (bc / 128) mod 2 =? 1 in
   if negb (act_ok r (fv_elem iv) (fv_elem ov)) || negb (r0 r cmd0_NPU_SET_IFM_UPSCALE =? 0)
-     || negb ((mode <=? 4) || (mode =? 6)) then None else
+     || negb ((mode <=? 4) || ((6 <=? mode) && (mode <=? 9))) then None else
   let b1 := get_bank m (fv_region iv) in
   let b2 := get_bank m (fv_region v2) in
   let sg1 := ifm_signed r in
@@ -370,7 +414,7 @@ Definition exec_elementwise (x : xcfg) (m : mem) (mode : Z) (r : regs) : option 
             let b := if rev then val1 y xx c else val2 y xx c in
             let v := ew_value (fv_elem iv) mode smode (rounding_mode r) (global_scale r)
                               opa_s opa_sh opb_s ofm_s ofm_sh a b in
-            (y, xx, c, activate x m r (out_clamp r (fv_elem ov) (v + zpo))))
+            (y, xx, c, activate x m r (out_clamp r (fv_elem ov) (sat32 (fv_elem ov) (v + zpo)))))
          (positions ov))).
 
 Definition exec_dma (m : mem) (r : regs) : option mem :=
